@@ -13,10 +13,10 @@ func init() {
 	register(&propertyDef{
 		id:    "C13",
 		title: "a loop step returns per-item results in item order within its parallelism",
-		rules: []ruleFunc{c13R1, c13R2, c13R3, c13R4, c13R5},
+		rules: []ruleFunc{c13R1, c13R2, c13R3, c13R4, c13R5, c13R6},
 		decided: "results are index-addressed, not arrival-ordered: each item goroutine stores its result under the range index of the very item it executed, into a slice made with the item count, and nothing appends to it (R1); " +
 			"the semaphore's capacity is the received parallelism, the sub-run is dominated by the successful acquisition and the release is deferred (R2); the step reports `error` exactly when the error map is non-empty, with the messages and the non-nil results keyed by item index, else `success` with the result slice (R3, plus C08.R5: non-success sub-run outputs count as failures); " +
-			"every item is validated against the sub-workflow input before the hand-over (R4); the shared result variables are written under the step lock and read after Wait (R5 = C17.R2).",
+			"every item is validated against the sub-workflow input before the hand-over (R4); the shared result variables are written under the step lock and read after Wait (R5 = C17.R2). Shared: acquisition and release of the parallelism slot can always give up when the step is closed (R6 = C06.R1).",
 		notDecided: "non-interference between concurrent item runs (C14's rules), behaviour under close (C12), the high-water mark of concurrent executions at run time.",
 	})
 }
